@@ -30,14 +30,14 @@ import (
 
 type nopLogger struct{}
 
-func (nopLogger) Debug(string, ...interface{})      {}
-func (nopLogger) Info(string, ...interface{})       {}
-func (nopLogger) Error(string, ...interface{})      {}
-func (nopLogger) Debugf(string, ...interface{})     {}
-func (nopLogger) Infof(string, ...interface{})      {}
-func (nopLogger) Errorf(string, ...interface{})     {}
-func (nopLogger) Warning(string, ...interface{})    {}
-func (nopLogger) Warningf(string, ...interface{})   {}
+func (nopLogger) Debug(string, ...interface{})     {}
+func (nopLogger) Info(string, ...interface{})      {}
+func (nopLogger) Error(string, ...interface{})     {}
+func (nopLogger) Debugf(string, ...interface{})    {}
+func (nopLogger) Infof(string, ...interface{})     {}
+func (nopLogger) Errorf(string, ...interface{})    {}
+func (nopLogger) Warning(string, ...interface{})   {}
+func (nopLogger) Warningf(string, ...interface{})  {}
 func (l nopLogger) With(...interface{}) log.Logger { return l }
 
 type mockConn struct{}
@@ -47,7 +47,7 @@ func (mockConn) RegisterRPCHandler(string, p2p.RPCHandler, ...p2p.RPCHandlerOpti
 	return nil
 }
 func (mockConn) RegisterEventHandler(string, p2p.EventHandler, p2p.Validator) error { return nil }
-func (mockConn) ApplyPenalty(p2p.PeerID, int)                                      {}
+func (mockConn) ApplyPenalty(p2p.PeerID, int)                                       {}
 func (mockConn) RequestFrom(context.Context, p2p.PeerID, string, []byte) p2p.Response {
 	return *p2p.NewResponse(0, "", nil, nil)
 }
